@@ -454,6 +454,15 @@ func c29B32Exec(c c29B32Case, x *pbt.Ctx) error {
 		return fmt.Errorf("%s: EncodeToString gives %d characters, EncodedLen says %d", desc, len(s), enc.EncodedLen(len(data)))
 	}
 	back, err := enc.DecodeString(s)
+	if c.Pad > 0x7f && err != nil && strings.IndexByte(s, byte(c.Pad)) >= 0 {
+		// known finding: the text contains a padding byte above 0x7f and the decoder (which
+		// strips newlines with a rune-wise Map) refuses it.  Texts without padding characters
+		// and every other failure are still judged.
+		if _, isCorrupt := err.(base32.CorruptInputError); isCorrupt {
+			x.Known("base32-nonascii-padding-not-decodable")
+			return nil
+		}
+	}
 	if err != nil || !bytes.Equal(back, data) {
 		return fmt.Errorf("%s: DecodeString(EncodeToString(data)) = %x, %v (encoded %q)", desc, back, err, s)
 	}
@@ -531,6 +540,7 @@ func c29B32StreamExec(c c29B32Case, x *pbt.Ctx) error {
 	r := base32.NewDecoder(enc, &c29ChunkReader{data: []byte(streamText), chunks: c.Chunks})
 	var out []byte
 	buf := make([]byte, c.Chunks[len(c.Chunks)-1])
+	var rerr error
 	for i := 0; i < 100000; i++ {
 		rn, err := r.Read(buf)
 		out = append(out, buf[:rn]...)
@@ -538,13 +548,25 @@ func c29B32StreamExec(c c29B32Case, x *pbt.Ctx) error {
 			break
 		}
 		if err != nil {
-			return fmt.Errorf("%s: stream decoder over the stream encoder's output %q: %v after %d bytes", desc, streamText, err, len(out))
+			rerr = err
+			break
 		}
 	}
-	if !bytes.Equal(out, data) {
-		return fmt.Errorf("%s: stream decode(stream encode(data)) = %x (text %q)", desc, out, streamText)
+	if rerr == nil && bytes.Equal(out, data) {
+		return nil
 	}
-	return nil
+	if c.Pad == -1 && len(data)%5 != 0 {
+		// known finding: without padding the stream encoder flushes a whole 8-character quantum
+		// for a partial final group and the stream decoder only decodes whole quanta, so the
+		// round trip of a length that is not a multiple of 5 gives extra zero bytes or an error.
+		// Only this shape is excluded (no padding, partial final group).
+		x.Known("base32-stream-without-padding")
+		return nil
+	}
+	if rerr != nil {
+		return fmt.Errorf("%s: stream decoder over the stream encoder's output %q: %v after %d bytes", desc, streamText, rerr, len(out))
+	}
+	return fmt.Errorf("%s: stream decode(stream encode(data)) = %x (text %q)", desc, out, streamText)
 }
 
 // ---------------------------------------------------------------- mnemonic
